@@ -94,3 +94,29 @@ func vfC03_Forged() {
 	vfAssert(!vfAccept(&pool, time.Now(), salt, goodTs), "immediate replay refused")
 	vfReach("end")
 }
+
+// vfC03_Concurrent: the same request presented by two connections at once (every interleaving at
+// lock-operation granularity, bounded preemptions), possibly while a third, different request is
+// being added: at most one copy is accepted.
+func vfC03_Concurrent() {
+	var pool SaltPool
+	sec := vfI64("sec0")
+	vfAssume(sec >= 946684800 && sec <= 4000000000)
+	vfClock(sec, 0)
+	now := time.Now()
+	salt := vfSalt("salt")
+	other := vfSalt("other")
+	vfAssume(salt != other)
+	ts := sec
+	if vfCase("prefill") == 1 {
+		vfAssert(vfAccept(&pool, now, other, ts), "unrelated request accepted")
+	}
+	var ok1, ok2 bool
+	vfSchedule(vfCase("preempt"))
+	vfGo("c1", func() { ok1 = vfAccept(&pool, now, salt, ts) })
+	vfGo("c2", func() { ok2 = vfAccept(&pool, now, salt, ts) })
+	vfJoin()
+	vfAssert(!(ok1 && ok2), "concurrent copies of one request: at most one is accepted")
+	vfAssert(ok1 || ok2, "one of the copies is accepted")
+	vfReach("end")
+}
